@@ -124,6 +124,8 @@ def setup(common=None):
 def sv_value(sv):
     """symbolic value -> mpf (SI)"""
     mp = _U["mp"]
+    if sv["r"][1] == 0:
+        return mp.inf  # the specification's +infinity (Equiv!Inf)
     v = mp.mpf(sv["r"][0]) / sv["r"][1]
     for g, e in zip(_U["gens"], sv["e"]):
         if e:
@@ -156,11 +158,19 @@ class _Snap:
         mp = _U["mp"]
         import math
 
-        if y is None or math.isnan(y) or math.isinf(y):
+        if y is None or math.isnan(y) or (math.isinf(y) and y < 0):
+            return {"k": "other", "r": [0, 1], "e": [], "id": 0}
+        cands = [(None, sv, sv_value(sv)) for sv in first] + self.pool
+        if math.isinf(y):
+            # +inf is the specification's Inf when that value is among the candidates, else a foreign number
+            for _, sv, val in cands:
+                if mp.isinf(val):
+                    return {"k": "sv", "r": list(sv["r"]), "e": list(sv["e"]), "id": 0}
             return {"k": "other", "r": [0, 1], "e": [], "id": 0}
         ym = mp.mpf(y)
-        cands = [(None, sv, sv_value(sv)) for sv in first] + self.pool
         for _, sv, val in cands:
+            if mp.isinf(val):
+                continue
             if abs(ym - val) <= rtol * abs(val):
                 return {"k": "sv", "r": list(sv["r"]), "e": list(sv["e"]), "id": 0}
         for i, f in enumerate(self.foreign):
@@ -298,7 +308,7 @@ def observe(case):
             tu = {"U": tU, "scale": float(tU.base_value)}
             inplace = st["en"] in ("convert_to_units", "convert_to_equivalent")
             pre = _digest(x, parent)
-            obs = {"k": "ok", "exc": "", "v": [], "rep": [], "approx": [], "ueq": True, "unit": "", "cls": "", "dt": "", "frame": True}
+            obs = {"k": "ok", "exc": "", "v": [], "rep": [], "approx": [], "ueq": True, "unit": "", "cls": "", "dt": "", "frame": True, "uname": "", "ureg": ""}
             ret = None
             try:
                 ret = _call(x, st, tgt)
@@ -326,6 +336,10 @@ def observe(case):
                     scale = float(res.units.base_value)
                     obs["ueq"] = bool(res.units == tu["U"]) and float(res.units.base_offset) == float(tu["U"].base_offset)
                     obs["unit"] = _ascii(res.units)
+                    # the result's unit as text and the registry it belongs to (TwinUnit: in-place = copying form)
+                    obs["uname"] = _ascii(res.units)
+                    rr = res.units.registry
+                    obs["ureg"] = "in" if rr is treg else "default" if rr is _U["dreg"] else "other"
                     if float(res.units.base_offset) != 0.0:
                         off = toff
                     obs["cls"] = type(res).__name__
